@@ -294,6 +294,12 @@ func RunConc(cfg ConcCfg, t *Trace, seg int) {
 		go func(cl int) {
 			defer wg.Done()
 			g := &concGen{r: rand.New(rand.NewSource(int64(cfg.Seed)*31 + int64(cl))), sh: sh, cl: cl, tag: &tag, avoid: cfg.Avoid, storm: cfg.Storm}
+			api := s.API
+			if UseTransport { // every client over a connection of its own: concurrent requests in the repository's RPC layer
+				ra := NewRpcAPI(s.N)
+				defer ra.Close()
+				api = ra
+			}
 			for n := 0; n < cfg.OpsPer && atomic.LoadInt32(&wedged) == 0; n++ {
 				c := g.next()
 				c.Cl = cl
@@ -303,7 +309,7 @@ func RunConc(cfg ConcCfg, t *Trace, seg int) {
 					d.Mark("inv", c.I)
 				}
 				done := make(chan struct{})
-				go func() { defer close(done); c.Exec(s.API) }()
+				go func() { defer close(done); c.Exec(api) }()
 				select {
 				case <-done:
 				case <-time.After(8 * time.Second):
